@@ -20,7 +20,11 @@ BLo == MinSet(BpVals)
 BHi == MaxSet(BpVals)
 XSeq == LET lo == 2 * BLo - 2 cnt == 2 * (BHi - BLo) + 5 IN
         [j \in 1..(3 * cnt) |-> <<lo + ((j - 1) \div 3), ((j - 1) % 3) - 1>>]
-TolCases == {[m |-> "metro", op |-> "tolmap", bps |-> t, xs |-> XSeq, sc |-> s] : t \in Tables, s \in Scales}
+\* ... and tables built incrementally: every sequence of values offered to push (ascending or not), one scale each
+PushSeqs == UNION {[1..n -> BpVals] : n \in 1..MaxBp}
+PushScale(p) == CHOOSE s \in Scales : \A s2 \in Scales : (s2 + Len(p) + p[1]) % 7 >= (s + Len(p) + p[1]) % 7
+TolCases == {[m |-> "metro", op |-> "tolmap", bps |-> t, xs |-> XSeq, sc |-> s] : t \in Tables, s \in Scales} \cup
+            {[m |-> "metro", op |-> "tolmap", bps |-> <<>>, pushes |-> p, xs |-> XSeq, sc |-> PushScale(p)] : p \in PushSeqs}
 
 \* ------------------------------------------------------------ directed distances
 Dirs2 == {<<<<0, 0, 0>>, 0>>, <<<<1, 0, 0>>, 1>>, <<<<0, -1, 0>>, 1>>, <<<<3, 4, 0>>, 5>>, <<<<-4, 3, 0>>, 5>>,
@@ -66,12 +70,16 @@ QuadV == << <<0,0,0>>, <<2,0,0>>, <<2,2,0>>, <<0,2,0>> >>
 QuadF == << <<0,1,2>>, <<0,2,3>> >>
 RoofV == << <<0,0,0>>, <<0,2,0>>, <<1,0,1>>, <<1,2,1>>, <<2,0,0>>, <<2,2,0>> >>
 RoofF == << <<0,2,3>>, <<0,3,1>>, <<2,4,5>>, <<2,5,3>> >>
+\* the roof upside down and sharp: a V groove with an opening of 37 degrees (normals 143 degrees apart), material below
+GrooveV == << <<0,0,5>>, <<0,2,5>>, <<1,0,2>>, <<1,2,2>>, <<2,0,5>>, <<2,2,5>> >>
 Meshes ==
     CASE MeshSet = "quick" -> {[vp |-> BoxV(1,1,1), fs |-> BoxF, cv |-> TRUE], [vp |-> WedgeV(1), fs |-> WedgeF, cv |-> TRUE],
-                               [vp |-> QuadV, fs |-> QuadF, cv |-> FALSE], [vp |-> RoofV, fs |-> RoofF, cv |-> FALSE]}
+                               [vp |-> QuadV, fs |-> QuadF, cv |-> FALSE], [vp |-> RoofV, fs |-> RoofF, cv |-> FALSE],
+                               [vp |-> GrooveV, fs |-> RoofF, cv |-> FALSE]}
       [] OTHER -> {[vp |-> BoxV(1,1,1), fs |-> BoxF, cv |-> TRUE], [vp |-> BoxV(2,1,3), fs |-> BoxF, cv |-> TRUE],
                    [vp |-> WedgeV(2), fs |-> WedgeF, cv |-> TRUE], [vp |-> TetraV, fs |-> TetraF, cv |-> TRUE],
-                   [vp |-> QuadV, fs |-> QuadF, cv |-> FALSE], [vp |-> RoofV, fs |-> RoofF, cv |-> FALSE]}
+                   [vp |-> QuadV, fs |-> QuadF, cv |-> FALSE], [vp |-> RoofV, fs |-> RoofF, cv |-> FALSE],
+                   [vp |-> GrooveV, fs |-> RoofF, cv |-> FALSE]}
 MC3(me, a) == {me.vp[k][a] : k \in 1..Len(me.vp)}
 Lo2(me, a) == 2 * (MinSet(MC3(me, a)) - Margin)
 Hi2(me, a) == 2 * (MaxSet(MC3(me, a)) + Margin)
